@@ -2,6 +2,8 @@
 package main
 
 import (
+	"io"
+	"log"
 	"runtime/debug"
 	"time"
 
@@ -25,6 +27,7 @@ func main() {
 	fixed := time.Unix(1700000000, 0).UTC()
 	vtime.Set(func() time.Time { return fixed })
 	debug.SetGCPercent(1000)
+	log.SetOutput(io.Discard) // the library logs progress lines through the standard logger
 	switch os.Args[1] {
 	case "list":
 		var ids []string
